@@ -1044,3 +1044,160 @@ func condExpansionBudget(w *World, fnName_ string) func() (bool, string) {
 		return false, "no expansion loop in " + fnName_ + " runs under a cumulative budget (accumulator += end - start + 1, compared with a constant <= 2^20 before the loop)"
 	}
 }
+
+// condGlobalBudget: the function has a loop nest (outer, inner) with a work
+// counter that spans both: a phi P at the outer head that is entered with a
+// constant, a phi Q at the inner head that is entered with P, every back edge
+// of the inner loop carries Q+c (c != 0, the same sign), a comparison of the
+// counter with a constant whose exceeding branch returns dominates every back
+// edge of the inner loop, and the outer back edges carry Q (or Q+c) back to P —
+// the counter is never re-initialised while the outer loop runs.
+func condGlobalBudget(w *World, fnName_ string) func() (bool, string) {
+	return func() (bool, string) {
+		fn := w.Func(fnName_)
+		if fn == nil {
+			return false, fnName_ + " not found"
+		}
+		loops := naturalLoops(fn)
+		why := "no counter found that is initialised outside the outer loop, incremented in every iteration of the inner loop and checked against a constant there"
+		for _, outer := range loops {
+			for _, inner := range loops {
+				if inner == outer || !outer.body[inner.head] || inner.body[outer.head] {
+					continue
+				}
+				for _, in := range inner.head.Instrs {
+					Q, ok := in.(*ssa.Phi)
+					if !ok {
+						break
+					}
+					if !isIntType(Q.Type()) {
+						continue
+					}
+					// entry edges of the inner loop carry one phi P of the outer head
+					var P *ssa.Phi
+					okEntry := true
+					var steps []ssa.Value
+					for i, e := range Q.Edges {
+						pred := inner.head.Preds[i]
+						if inner.body[pred] {
+							steps = append(steps, e)
+							continue
+						}
+						ph, isPhi := e.(*ssa.Phi)
+						if !isPhi || ph.Block() != outer.head || (P != nil && P != ph) {
+							okEntry = false
+							continue
+						}
+						P = ph
+					}
+					reinit := false
+					if !okEntry || P == nil {
+						reinit = true
+					}
+					if len(steps) == 0 {
+						continue
+					}
+					// steps: Q + c
+					sign := int64(0)
+					okSteps := true
+					incs := map[ssa.Value]bool{}
+					for _, s := range steps {
+						add, ok := s.(*ssa.BinOp)
+						if !ok || (add.Op != token.ADD && add.Op != token.SUB) || add.X != ssa.Value(Q) {
+							okSteps = false
+							break
+						}
+						c, isC := bconstInt(add.Y)
+						if !isC || c == 0 {
+							okSteps = false
+							break
+						}
+						if add.Op == token.SUB {
+							c = -c
+						}
+						sg := int64(1)
+						if c < 0 {
+							sg = -1
+						}
+						if sign != 0 && sign != sg {
+							okSteps = false
+							break
+						}
+						sign = sg
+						incs[s] = true
+					}
+					if !okSteps {
+						continue
+					}
+					// the check
+					checked := false
+					for b := range inner.body {
+						if len(b.Instrs) == 0 {
+							continue
+						}
+						ifi, ok := b.Instrs[len(b.Instrs)-1].(*ssa.If)
+						if !ok {
+							continue
+						}
+						cmp, ok := ifi.Cond.(*ssa.BinOp)
+						if !ok {
+							continue
+						}
+						if !(cmp.X == ssa.Value(Q) || incs[cmp.X]) {
+							continue
+						}
+						if _, isC := bconstInt(cmp.Y); !isC {
+							continue
+						}
+						up := cmp.Op == token.GTR || cmp.Op == token.GEQ
+						down := cmp.Op == token.LSS || cmp.Op == token.LEQ
+						if !(sign > 0 && up) && !(sign < 0 && down) {
+							continue
+						}
+						tb := b.Succs[0]
+						if len(tb.Instrs) == 0 {
+							continue
+						}
+						if _, isRet := tb.Instrs[len(tb.Instrs)-1].(*ssa.Return); !isRet {
+							continue
+						}
+						all := true
+						for _, l := range inner.latches {
+							if !(b == l || b.Dominates(l)) {
+								all = false
+							}
+						}
+						if all {
+							checked = true
+						}
+					}
+					if !checked {
+						continue
+					}
+					if reinit {
+						why = fmt.Sprintf("the work counter %s of the inner loop is re-initialised inside the outer loop: the limit then holds per run of the inner loop, not in total", Q.Comment)
+						continue
+					}
+					// P: entered with a constant, continued with the counter
+					okP := true
+					for i, e := range P.Edges {
+						pred := outer.head.Preds[i]
+						if outer.body[pred] {
+							if !(e == ssa.Value(Q) || incs[e] || e == ssa.Value(P)) {
+								okP = false
+							}
+						} else if _, isC := e.(*ssa.Const); !isC {
+							okP = false
+						}
+					}
+					if !okP {
+						why = fmt.Sprintf("the counter %s is not carried unchanged around the outer loop", Q.Comment)
+						continue
+					}
+					return true, fmt.Sprintf("counter %s: initialised before the outer loop, stepped by every iteration of the inner loop, checked against a constant with an error return, carried around the outer loop", Q.Comment)
+				}
+			}
+		}
+		return false, why
+	}
+}
